@@ -56,7 +56,10 @@ InitObjs == { C!Obj(<<>>, <<B(1)>>),
 \* "intdata": the caller's array has an integer dtype; "fortran": it is Fortran-contiguous (the idiom
 \* np.array([t, x, y]).T); "strided": it is a non-contiguous view with a negative stride.  The packaging of
 \* the numbers does not change the object that is built.
-Routes == {"array", "list", "object", "negarray", "intdata", "fortran", "strided"}
+\* "negrow": ONE row (one end point of a segment, one vertex of a polygon) of the units at odd flat positions is
+\* handed over as -x: each row is a projective point of its own - except for tangent vectors, where (x, v) and
+\* (-x, v) are different objects.
+Routes == {"array", "list", "object", "negarray", "negrow", "intdata", "fortran", "strided"}
 HP == C!Obj(hshape, hpc)
 HD == C!Obj(hshape, hdc)
 KeepHeld == UNCHANGED <<held, hshape, hpc, hdc>>
@@ -75,10 +78,11 @@ Init == /\ cls \in Classes /\ built = FALSE /\ shape = <<>> /\ pc = <<>> /\ dc =
 
 Construct(route, X) ==
   /\ ~built /\ built' = TRUE
+  /\ route = "negrow" => cls # "Tangent"
   /\ shape' = X.shape /\ pc' = X.cell /\ dc' = X.cell
   /\ UNCHANGED <<cls, nops>> /\ KeepHeld
   /\ last' = [a |-> "construct", route |-> route, shape |-> X.shape, cell |-> X.cell,
-              neg |-> IF route = "negarray" THEN {p \in 1..Len(X.cell) : p % 2 = 1} ELSE {}]
+              neg |-> IF route \in {"negarray", "negrow"} THEN {p \in 1..Len(X.cell) : p % 2 = 1} ELSE {}]
 
 StepH == built /\ nops < MaxOps /\ nops' = nops + 1 /\ UNCHANGED <<cls, built>>
 \* a call on the object never changes the object the caller holds
